@@ -61,6 +61,11 @@ func runWorld(t *rapid.T, prop string) {
 	if unanimous {
 		profile = "near-sync"
 	}
+	if profile == "two-faced" {
+		// each side of the partition must prefer its own chain: honest inputs fork at the base
+		gen.TwoFaced = true
+		gen.MinPathLen = 1
+	}
 	if profile == "gate" || profile == "laggard" {
 		// the gate schedule splits proposals best when the inputs themselves agree
 		gen.MinPathLen = 1
